@@ -579,6 +579,8 @@ def part_route(chk, gens):
     for c, r in zip(cases, rows):
         if r.get("lab"):
             tot["lab"] += 1
+            if tot["lab"] <= 2:
+                chk.note("dtls listener case could not run (%s): %s" % (c["name"], r["lab"]))
             continue
         chk.evaluated(key="l" + c["name"])
         for k in ("arrivals", "toOwner", "offPath"):
